@@ -555,9 +555,6 @@ class Dict(dict, base.Symbolic, pg_typing.CustomTyping):
             self._error_message(
                 f'Key {key!r} is not allowed for {container_cls}.'))
 
-    # Detach old value from object tree.
-    self._detach(old_value)
-
     if (pg_typing.MISSING_VALUE == value and
         (not field or isinstance(field.key, pg_typing.NonConstKey))):
       if key in self:
@@ -569,10 +566,15 @@ class Dict(dict, base.Symbolic, pg_typing.CustomTyping):
         # without schema.
         return None
     else:
+      # NOTE: the new value is validated before anything is changed, so a
+      # rejected value leaves the old value in place and attached.
       new_value = self._formalized_value(key, field, value)
       super().__setitem__(key, new_value)
 
     self._invalidate_content_cache()
+
+    # Detach old value from object tree.
+    self._detach(old_value)
 
     # NOTE(daiyip): If current dict is the field dict of a symbolic object,
     # Use parent object as update target.
